@@ -375,7 +375,7 @@ fn mode_builder(args: &Args) {
         };
         // the full observation after every request is quadratic in the length of the history:
         // the very long layout histories are left to the layout monitors
-        if h.closes() > 24 {
+        if h.closes() > 24 || h.reqs.len() > 160 {
             continue;
         }
         evaluations += 1;
